@@ -137,6 +137,20 @@ func (uaq *UnAckQueue) Push(s Queueable) error {
 	return nil
 }
 
+// DropLast takes the entry added by the last Push off the queue again and frees its sequence number: the
+// stanza could not be sent. The caller makes sure that nothing was pushed or popped since that Push.
+func (uaq *UnAckQueue) DropLast() {
+	if uaq == nil {
+		return
+	}
+	uaq.Lock()
+	defer uaq.Unlock()
+	if n := len(uaq.Uslice); n > 0 && uaq.Uslice[n-1].Id == uaq.lastId {
+		uaq.Uslice = uaq.Uslice[:n-1]
+		uaq.lastId--
+	}
+}
+
 func (uaq *UnAckQueue) Empty() bool {
 	if uaq == nil {
 		return true
